@@ -581,7 +581,9 @@ class ModelFittingDataTree(ProblemSingleObjective):
             idx_island: int
             params_array: xr.DataArray
             for idx_island, params_array in parameters.groupby("island"):
-                params: np.ndarray = params_array.squeeze().to_numpy()
+                # Keep dimension 'param_id' (it has only one element when a single
+                # parameter is calibrated)
+                params: np.ndarray = np.atleast_1d(params_array.squeeze().to_numpy())
 
                 result_datatree: xr.DataTree = delayed(self._apply_parameters)(
                     processor=delayed_processor, parameter=params
